@@ -10,14 +10,20 @@ timeout_transport, session timeout) values seen at every transport read/write of
 
 Nothing in scrapli is patched: the drivers are real, the transport is a scripted one (a subclass of
 harness.simdevice's, with per-call read/write fault plans), and instance-level wrappers only record
-which phase of an operation an I/O event belongs to."""
+which phase of an operation an I/O event belongs to.
+
+The thread based timeout of the sync stack (system / telnet transports, windows, drivers used off the main
+thread) has its own scenario kind in harness/c14_pool.py: real threads, a transport whose blocked read is
+released by close() after a latency or never, the timeouts observed at the moment the call has ended and
+again once no thread is left in the call's body; model TimeoutRestore.pool_call, whose [joins] parameter
+is read from the source by gen_timeouts (the executor's exit joins the worker)."""
 import asyncio
 import json
 import math
 import os
 import time
 
-from . import common
+from . import c14_pool, common
 from .simdevice import AsyncScriptedTransport, ScriptedTransport, SimDevice, Starved, make_driver
 
 LEVEL = "proof"
@@ -758,7 +764,7 @@ def case_term(conn, rec):
 
 
 HEADER = """From Verif Require Import TimeoutRestore.
-Definition chk := check_case.
+Definition chk (k : _ + _) : bool := match k with inl a => check_case a | inr b => check_pool_case b end.
 """
 
 
@@ -1105,7 +1111,70 @@ def run(rep):
                             "before": [repr(x) for x in rec["before"]], "seen_during": [[p, [repr(x) for x in s]] for p, s in seen],
                             "after": [repr(x) for x in rec["after"]], "outcome": rec["outcome"]}, limit=5)
 
+    # 3b. the thread based timeout (real threads; reads that block until close() lets them go - later or never)
+    pool_scens = [("pool", s_) for s_ in c14_pool.fixed_scenarios(thorough)]
+    for _ in range(40 if thorough else 3):
+        pool_scens.append(("pool-seq", c14_pool.gen_scenario(rng)))
+    pdist = {"scenarios": len(pool_scens), "calls": 0, "path": {}, "ops": {}, "outcomes": {}, "timed_out_in_timed_read": 0,
+             "timed_out_elsewhere": 0, "read_never_wakes": 0, "call_blocked_until_released": 0, "user_reconfigures_after_end": 0,
+             "threads_left_at_end": 0, "modelled": 0, "unmodelled": {}}
+    pool_terms, pool_term_recs, pool_failures = [], [], []
+    for label, scen in pool_scens:
+        try:
+            recs = c14_pool.run_scenario(scen)
+        except Exception as e:  # the machinery failed on this scenario: fail closed
+            rep.broken.append("harness failed on a scenario: %s: %r" % (label, e))
+            rep.notes.append(json.dumps(scen)[:1500])
+            continue
+        for k, rec in enumerate(recs):
+            spec = rec["spec"]
+            pdist["calls"] += 1
+            count(pdist["path"], scen["path"])
+            count(pdist["ops"], spec["op"])
+            count(pdist["outcomes"], "Blocks" if rec["gave_up"] else rec["outcome"])
+            pdist["threads_left_at_end"] += rec["leaked"]
+            if spec.get("silent"):
+                if any(ph == "timed" for ph, _ in rec["seen"]):
+                    pdist["timed_out_in_timed_read"] += 1
+                else:
+                    pdist["timed_out_elsewhere"] += 1
+                pdist["read_never_wakes"] += int(spec.get("release") == "never")
+                pdist["call_blocked_until_released"] += int(rec["gave_up"])
+                pdist["user_reconfigures_after_end"] += int(bool(spec.get("reconf")))
+            if not rec["on_worker"]:
+                rep.broken.append("pool scenario: the call's I/O did not run in a worker thread (%s path)" % scen["path"])
+            rep.case((label, json.dumps(scen["calls"][k], sort_keys=True), scen["path"], scen["kind"], scen["has_set"],
+                      scen["base_ops"], scen["base_tr"]), nontrivial=len(dedup(rec["seen"])) > 1 or rec["outcome"] != "Ok")
+            bad = c14_pool.oracle(rec)
+            if bad:
+                pool_failures.append((label, scen, k, rec, bad))
+            term, why = c14_pool.case_term(rec, info["pool_joins"]) if "pool_joins" in info else (None, "pool: no generated facts")
+            if term is None:
+                count(pdist["unmodelled"], why)
+            else:
+                pdist["modelled"] += 1
+                pool_terms.append(term)
+                pool_term_recs.append((label, scen, k, rec))
+            if spec.get("silent") and k < 2:
+                rep.sample({"suite": "pool", "path": scen["path"], "driver": scen["kind"], "observed": c14_pool.jsonable_rec(rec)}, limit=7)
+    dist["thread_timeout"] = pdist
+
     # 4. the property oracle's verdicts
+    pool_reported = set()
+    for label, scen, k, rec, bad in pool_failures:
+        sig = c14_pool.signature(rec)
+        if sig in pool_reported:
+            continue
+        pool_reported.add(sig)
+        small = dict(scen)
+        small["calls"] = scen["calls"][:k + 1]
+        rep.violation("thread based timeout (%s path), %s(%s) ended with %s on the sync %s driver: %s" % (
+            scen["path"], rec["spec"]["op"], json.dumps({x: rec["spec"][x] for x in rec["spec"] if x in ("ov", "rd", "release", "reconf")}),
+            rec["outcome"], scen["kind"], "; ".join(bad)),
+            {"suite": "pool", "scenario": small, "call_index": k, "observed": c14_pool.jsonable_rec(rec),
+             "rerun": "./check C14 --replay <this file>"}, signature=sig)
+        if len(pool_reported) >= 4:
+            break
     reported = set()
     for label, scen, k, rec, bad in failures:
         sig = signature(rec)
@@ -1122,10 +1191,13 @@ def run(rep):
         if len(reported) >= 8:
             break
     # 5. model vs implementation
-    badix, log = common.eval_cases(rep.workdir, "cases_c14", HEADER, terms, "chk")
-    rep.coverage["correspondence"] = {"suite": "timeout-restore", "cases": len(terms), "distribution": dist,
-                                      "model_disagreements": None if badix is None else len(badix),
-                                      "oracle_failures": len(failures)}
+    badix, log = common.eval_cases(rep.workdir, "cases_c14", HEADER,
+                                   ["(inl %s)" % t for t in terms] + ["(inr %s)" % t for t in pool_terms], "chk")
+    pool_badix = None if badix is None else [i - len(terms) for i in badix if i >= len(terms)]
+    badix = None if badix is None else [i for i in badix if i < len(terms)]
+    rep.coverage["correspondence"] = {"suite": "timeout-restore", "cases": len(terms) + len(pool_terms), "distribution": dist,
+                                      "model_disagreements": None if badix is None else len(badix) + len(pool_badix),
+                                      "oracle_failures": len(failures) + len(pool_failures)}
     rep.coverage["generated_from"] = common.source_hashes(SOURCES)
     rep.coverage["generated"] = info
     rep.rule = ("scenario = fresh real driver (GenericDriver / IOSXEDriver / NetworkDriver, sync and asyncio, transport with and without "
@@ -1135,7 +1207,19 @@ def run(rep):
                 "(ScrapliTimeout / transient or permanent ScrapliConnectionError / closed transport / RuntimeError / KeyboardInterrupt|CancelledError "
                 "at the n-th read or write of the call; refused privilege escalation; failing commands; raising callbacks); plus the product "
                 "operation x override class x fault kind x position (a seeded third of it in the quick tier) and real-timer cases on a silent device; "
+                "plus the thread based timeout: sync drivers reached through each of its four entries (SystemTransport / TelnetTransport class name, "
+                "windows flag, calling thread that is not the main thread) over a transport whose blocked read comes back a latency after close() or "
+                "never, timeout_ops (per call or configured) expiring inside send_and_read's / channel.send_input_and_read's timed read, before it, "
+                "in send_command / send_interactive, the timeouts read when the call has ended and again after every thread left in the call's body "
+                "has finished, with or without the user assigning both timeouts in between; "
                 "non-trivial = the call changed a timeout at some point or did not end with Ok; distinct = (scenario, call)")
+    for ix in (pool_badix or [])[:4]:
+        label, scen, k, rec = pool_term_recs[ix]
+        rep.notes.append("model/implementation disagreement (thread based timeout): %s" % json.dumps(
+            {"scenario": {x: scen[x] for x in scen if x != "calls"}, "call": scen["calls"][k], "observed": c14_pool.jsonable_rec(rec),
+             "term": pool_terms[ix]})[:3000])
+        if not c14_pool.oracle(rec):
+            rep.broken.append("correspondence thread-timeout: model differs from implementation (%s, outcome %s)" % (rec["spec"]["op"], rec["outcome"]))
     if badix is None:
         rep.broken.append("correspondence timeout-restore (model evaluation failed)")
         rep.notes.append(log)
@@ -1174,6 +1258,23 @@ def run(rep):
                     break
 
 
+def replay_pool(scen):
+    recs = c14_pool.run_scenario(scen)
+    rc = 0
+    for k, rec in enumerate(recs):
+        bad = c14_pool.oracle(rec)
+        print("call %d (%s path): %s  outcome=%s%s" % (k, scen["path"], json.dumps(rec["spec"]), rec["outcome"],
+                                                       "  (the call only ended when the harness let the blocked read go)" if rec["gave_up"] else ""))
+        print("   before %r  during %r  when the call ended %r  threads still in the call %d  afterwards %r (expected %r)" % (
+            rec["before"], [s for _, s in dedup(rec["seen"])], rec["at_end"], rec["leaked"], rec["settled"], rec["expected_settled"]))
+        if bad:
+            print("   property FAILS on this call: " + "; ".join(bad))
+            rc = 1
+    if rc == 0:
+        print("property holds on this input")
+    return rc
+
+
 def replay(path):
     r = json.load(open(path))
     scen = r.get("scenario")
@@ -1181,6 +1282,8 @@ def replay(path):
         print("nothing to replay (no concrete input): %s" % r.get("what"))
         return 1
     common.setup_env()
+    if scen.get("suite") == "pool":
+        return replay_pool(scen)
     recs = run_scenario(scen)
     rc = 0
     for k, rec in enumerate(recs):
@@ -1208,13 +1311,27 @@ MANIFEST = {
             "on the fault history of each real call (sync and asyncio drivers over the simulated device) and must reproduce the state after, the "
             "outcome class and the sequence of timeout values seen at every transport read/write; an independent oracle compares the three values "
             "before/after on the real connection and, for the other half of the statement, checks on the observations alone that the value passed "
-            "for the call (timeout_ops, int(read_duration), read_timeout) is the one in effect at the call's own reads and writes.",
+            "for the call (timeout_ops, int(read_duration), read_timeout) is the one in effect at the call's own reads and writes. "
+            "Thread based timeout of the sync stack (decorators._multiprocessing_timeout: system/telnet transports, windows, non-main threads): "
+            "theorem pool_call_restores - because the pool's exit joins the worker, when ScrapliTimeout reaches the caller the worker has left "
+            "send_and_read's timed read through its finally, so all three values are what they were AT THE MOMENT THE CALL ENDS and no thread is left "
+            "to write them afterwards; a call whose blocked read never wakes never ends (pool_call_blocks_iff); without the join the statement is "
+            "refuted (pool_unjoined_refuted, pool_unjoined_late_write). The join is a generated obligation (gen_pool_joins, gen_thread_sites: the one "
+            "executor of decorators.py is a context manager / shut down with wait=True in a finally covering every raise and return; nothing else there "
+            "starts a thread). Correspondence + oracle on real threads (harness/c14_pool.py): scripted transport whose blocked read is released by "
+            "close() after a latency or never; values read by the calling thread when the call has ended, and again after every thread still in "
+            "the call's body has finished (optionally after the user re-assigned both timeouts).",
     "note": "partial: the runtime is observed, not verified - the model takes the call's control flow (which read raised what, which callback matched) "
             "from the observed run and proves the bookkeeping; that scrapli's Python follows the model is checked by the correspondence run only. "
             "Trusted: Coq kernel + vm_compute; hand model coq/model/TimeoutRestore.v; gen/gen_timeouts.py (ast reading); SimDevice and the scripted "
-            "transports (a stub with _set_timeout stands for paramiko/ssh2); CPython signal/asyncio timers. Not modelled: the thread-pool timeout "
-            "mechanism (system/telnet transports: the worker thread keeps running after the caller got ScrapliTimeout), values nan/inf (oracle only), "
+            "transports (a stub with _set_timeout stands for paramiko/ssh2); CPython signal/asyncio timers; for the thread based timeout also concurrent.futures "
+            "(ThreadPoolExecutor.__exit__ = shutdown(wait=True) joins the worker) and the scripted pty-like transport of harness/c14_pool.py (sub-second "
+            "real-time timeouts: a timeout that hits a worker which is not yet blocked in its read is judged by the oracle only; a call is taken to hang "
+            "when it has not ended 0.4 s after its timeout_ops - it is then released and judged at its real end). In the model of the thread mechanism "
+            "where the worker is when the time is up and whether its read wakes are inputs taken from the observed run; calls on that path that do not "
+            "time out are oracle-only (same code as the modelled operations). Not modelled: values nan/inf (oracle only), "
             "a callback that sets the timeouts itself (excluded by the theorem's hypothesis on callbacks).",
     "technique": "Coq proof (case analysis over outcomes, induction over call sequences / read_callback stages, invariant session timeout = transport timeout) "
-                 "+ vm_compute correspondence against both real driver stacks with fault injection at every read/write + before/after oracle",
+                 "+ vm_compute correspondence against both real driver stacks with fault injection at every read/write + before/after oracle "
+                 "+ real-thread scenarios on the thread based timeout (end-of-call and after-the-call observers) + ast obligation that the executor joins its worker",
 }
